@@ -459,6 +459,11 @@ def check(ax, case, rec):
             Cf = np.einsum("ki...,kj...->ij...", Ff, Ff)
             cmp("strain(field)=strain(C=F^T F)", fm.strain(fcont, k=k), fm.strain(None, C=Cf, k=k), tol=1e-12)
             cmp("strain(field, principal)", fm.strain(fcont, tensor=False, k=k), fm.strain(None, C=Cf, tensor=False, k=k), tol=1e-12)
+            # a tensor handed over explicitly is the one that is used, whether or not a field comes along ("if None, ... from the field")
+            Cx = 1.0 + 0.3 * np.arange(Cf.shape[-1]).reshape(1, 1, 1, -1) / Cf.shape[-1]
+            Cx = Cf * Cx + 0.2 * np.eye(3).reshape(3, 3, 1, 1)
+            cmp("strain(field, C=given)=strain(C=given)", fm.strain(fcont, C=Cx, k=k), fm.strain(None, C=Cx, k=k), tol=0.0)
+            cmp("strain(field, C=given, voigt)", fm.strain(fcont, C=Cx, asvoigt=True, k=k), fm.strain(None, C=Cx, asvoigt=True, k=k), tol=0.0)
             cmp("deformation_gradient(field)", fm.deformation_gradient(fcont), Ff, tol=0.0)
             cmp("right_cauchy_green_deformation(field)", fm.right_cauchy_green_deformation(fcont), Cf, tol=1e-15)
             cmp("displacement(field)", fm.displacement(fcont), fcont[0].values, tol=0.0)
